@@ -223,3 +223,99 @@ def v_direction_inverses(c):
     c.ensure_eq("to_nautical_twice_is_identity", c.call(n1), d)
     x = c.real("x", 0, 100)
     c.ensure_eq("degrees_radians_density_factors_cancel", x * (180 / m.pi) * (m.pi / 180), x)
+
+
+# ---------------------------------------------------------------------------------------
+# netCDF pairs.  netCDF4 / h5netcdf are not installed offline; xarray's scipy backend writes and reads
+# NETCDF3, which exercises the same wavespectra code (renaming, unit and direction conversion, packing).
+
+
+def _compare_station(c, ds, back, atol_rel, what=""):
+    import numpy as np
+
+    c.ensure_true("same_times", bool(np.array_equal(back["time"].values.astype("datetime64[s]"), ds["time"].values.astype("datetime64[s]"))),
+                  f"{what} wrote {ds['time'].values} read {back['time'].values}")
+    c.ensure_true("same_frequencies_and_directions", bool(np.allclose(back["freq"].values, ds["freq"].values, rtol=1e-6)) and
+                  bool(np.allclose(np.sort(back["dir"].values), np.sort(ds["dir"].values), atol=1e-6)), f"{what} coords")
+    for nm in ("lon", "lat"):
+        ok = nm in back.variables and bool(np.allclose(np.asarray(back[nm].values, dtype=float).ravel(), np.asarray(ds[nm].values, dtype=float).ravel(), atol=1e-6))
+        c.ensure_true("same_positions", ok, f"{what} {nm}: wrote {np.asarray(ds[nm].values).ravel()} read "
+                                             f"{np.asarray(back[nm].values).ravel() if nm in back.variables else 'no variable of that name: ' + str(list(back.variables))}")
+    b = back["efth"].transpose("time", "site", "freq", "dir").sortby("dir").values
+    a = ds["efth"].transpose("time", "site", "freq", "dir").sortby("dir").values
+    for t in range(a.shape[0]):
+        for s in range(a.shape[1]):
+            src, got = a[t, s], b[t, s]
+            if np.isnan(src).all():
+                c.ensure_true("all_missing_spectrum_comes_back_missing", bool(np.isnan(got).all()), f"{what} t={t} site={s}")
+                continue
+            tol = atol_rel(src)
+            c.ensure_true("each_spectrum_at_the_position_it_was_written_from", bool(np.all(np.abs(got - src) <= tol)),
+                          f"{what} t={t} site={s} max err {np.nanmax(np.abs(got - src))} tolerance {tol}")
+
+
+@contract(SD + "to_ww3", props=["C11"], scenarios=[{"lonlat": "data_vars"}, {"lonlat": "coords"}], replays=6)
+def v_ww3_roundtrip(c, lonlat):
+    """BOUNDED: ds.spec.to_ww3(f); read_ww3(f) - stations, any number of times, sorted / rolled
+    directions, zero and missing spectra, lon/lat kept as data variables or as coordinates"""
+    if c.m.symbolic:
+        c.ensure_true("placeholder_structural", True)
+        return
+    import os
+    import shutil
+    import tempfile
+    import warnings
+
+    from wavespectra import read_ww3
+
+    ds = _ds(c, "station", unsorted=c.rng.random() < 0.5)
+    if lonlat == "coords":
+        ds = ds.set_coords(["lon", "lat"])
+    tmp = tempfile.mkdtemp(prefix="verif_c11_")
+    try:
+        fn = os.path.join(tmp, "a.nc")
+        with warnings.catch_warnings():
+            warnings.simplefilter("ignore")
+            ds.spec.to_ww3(fn)
+            back = read_ww3(fn).load()
+        _compare_station(c, ds, back, lambda src: 1e-9 * max(float(src[~(src != src)].max()) if (src == src).any() else 0.0, 1e-300), what=f"lon/lat as {lonlat}")
+    finally:
+        shutil.rmtree(tmp, ignore_errors=True)
+
+
+@contract(SD + "to_netcdf", props=["C11"], scenarios=[{"packed": False}, {"packed": True}], replays=6)
+def v_netcdf_roundtrip(c, packed):
+    """BOUNDED: ds.spec.to_netcdf(f, ncformat='NETCDF3_64BIT', compress=False, packed=...); read_netcdf(f).
+    Packed files hold int32 multiples of 1e-5 (resolution of the format: 1e-5 absolute)."""
+    if c.m.symbolic:
+        c.ensure_true("placeholder_structural", True)
+        return
+    import os
+    import shutil
+    import tempfile
+    import warnings
+
+    from wavespectra import read_netcdf
+
+    ds = _ds(c, "station", unsorted=c.rng.random() < 0.5)
+    tmp = tempfile.mkdtemp(prefix="verif_c11_")
+    try:
+        fn = os.path.join(tmp, "a.nc")
+        with warnings.catch_warnings():
+            warnings.simplefilter("ignore")
+            try:
+                ds.spec.to_netcdf(fn, ncformat="NETCDF3_64BIT", compress=False, packed=packed)
+            except Exception as e:
+                c.ensure_true("documented_options_are_accepted", False, f"to_netcdf(compress=False, packed={packed}) raised {type(e).__name__}: {e}")
+                return
+            c.ensure_true("documented_options_are_accepted", True)
+            back = read_netcdf(fn).load()
+        _compare_station(c, ds, back, (lambda src: 0.51e-5) if packed else (lambda src: 1e-12 * max(float(np_nanmax(src)), 1e-300)), what=f"packed={packed}")
+    finally:
+        shutil.rmtree(tmp, ignore_errors=True)
+
+
+def np_nanmax(a):
+    import numpy as np
+
+    return np.nanmax(a) if (a == a).any() else 0.0
